@@ -634,6 +634,28 @@ def run_case(case, scratch):
         try:
             got = read_all(path)
             orc["n_after"] = len(got)
+            # an appended domain: the NEW variables of its own constructs (those that the new
+            # domain variables name, directly or through bounds / coordinates attributes) are
+            # read, in field mode, as fields of their own - which of them depends on the
+            # alphabetical order of their netCDF names - by a plain write / read too (the
+            # reader's business): they are neither old fields nor extra fields of the append
+            if step["outcome"] == "ok" and any(not isinstance(g0, cfdm.Field) for g0 in new_ref):
+                old_names = {v["name"] for v in before["vars"]}
+                byname = {v["name"]: v for v in after["vars"]}
+                todo = [v["name"] for v in after["vars"]
+                        if v["name"] not in old_names and "dimensions" in v["attrs"]]
+                own_names = set()
+                while todo:
+                    n = todo.pop()
+                    for k2, x in byname.get(n, {"attrs": {}})["attrs"].items():
+                        if k2 in REF_ATTRS or k2 == "dimensions":
+                            for t in str(x).split():
+                                if not t.endswith(":") and t not in own_names:
+                                    own_names.add(t)
+                                    todo.append(t)
+                own_names -= old_names
+                orc["own_metadata_variables"] = sorted(own_names)
+                got = [h for h in got if not (isinstance(h, cfdm.Field) and h.nc_get_variable(None) in own_names)]
             missing, used = match_all(old, got)
             orc["old_missing"] = [repr(old[i]) for i in missing]
             orc["old_missing_ncvars"] = [old[i].nc_get_variable(None) for i in missing]
@@ -661,23 +683,6 @@ def run_case(case, scratch):
                         left.pop(list(u3)[0])
                         miss2.remove(i)
                         via.append(i)
-                # an appended domain: the variables of its own constructs are read, in
-                # field mode, as fields of their own by a plain write / read too (the
-                # reader's business): these are not extra fields of the append
-                for g0 in new_ref:
-                    if isinstance(g0, cfdm.Field) or not left:
-                        continue
-                    try:
-                        _via[0] += 1
-                        p = os.path.join(scratch, f"rt_{os.getpid()}_{_via[0]}.nc")
-                        cfdm.write(g0.copy(), p, fmt=fmt)
-                        own = [in_memory(h) for h in cfdm.read(p)]
-                        os.remove(p)
-                    except Exception:
-                        continue
-                    # (in such a field the names of other netCDF variables are mere properties)
-                    m4, u4 = match_all(own, left, ignore=list(gl_held) + list(REF_ATTRS) + ["dimensions"])
-                    left = [h for j, h in enumerate(left) if j not in u4]
                 orc["new_matched_via_roundtrip"] = via
                 orc["new_missing"] = [repr(new_ref[i]) for i in miss2]
                 orc["input_changed"] = [repr(g) for g, c in zip(new, new_ref) if not g.equals(c, verbose=0)]
